@@ -3,6 +3,7 @@ package main
 // C16 — a directory listing returns every entry exactly once.
 
 import (
+	"errors"
 	"fmt"
 	"io"
 	"os"
@@ -10,6 +11,7 @@ import (
 	"sort"
 	"strings"
 	"sync/atomic"
+	"time"
 
 	"github.com/pkg/sftp"
 )
@@ -20,10 +22,20 @@ type scriptedLister struct {
 	names    []string
 	style, k int
 	calls    *int32
+	failCall int32 // > 0: that call (1-based) returns no entry and an error that is not io.EOF (a backend fault)
+	emptyAt  int32 // > 0: that call returns (0, nil): an empty batch, not the end
 }
 
+var errListerFault = errors.New("lister backend fault")
+
 func (l scriptedLister) ListAt(out []os.FileInfo, off int64) (int, error) {
-	atomic.AddInt32(l.calls, 1)
+	call := atomic.AddInt32(l.calls, 1)
+	if l.failCall > 0 && call == l.failCall {
+		return 0, errListerFault
+	}
+	if l.emptyAt > 0 && call == l.emptyAt && int64(len(l.names)) > off {
+		return 0, nil
+	}
 	L, B := len(l.names), len(out)
 	if int64(L) <= off {
 		return 0, io.EOF
@@ -124,6 +136,57 @@ func runC16(c *Ctx) {
 		}
 	}
 	c16ExtListings(c)
+	// a lister that fails part-way (an error other than io.EOF on the j-th call): the listing is not complete, and ReadDir must
+	// say so - never a shortened listing with a nil error. And a lister that hands back an empty batch without io.EOF in the
+	// middle (allowed: "ListAt ... returns the number of entries copied and an io.EOF error if we made it to the end"): the
+	// listing goes on after it.
+	sftp.MaxFilelist = 3
+	for size := 4; size <= 10; size += 3 {
+		for j := int32(1); j <= 4; j++ {
+			for _, empty := range []bool{false, true} {
+				var names []string
+				for i := 0; i < size; i++ {
+					names = append(names, fmt.Sprintf("e%d", i))
+				}
+				var calls int32
+				sl := scriptedLister{names: names, style: 1, calls: &calls}
+				if empty {
+					sl.emptyAt = j
+				} else {
+					sl.failCall = j
+				}
+				h := listHandlers{l: sl}
+				p, err := newPair(pairOpt{reqServer: true, handlers: sftp.Handlers{FileGet: h, FilePut: h, FileCmd: h, FileList: h}})
+				if err != nil {
+					continue
+				}
+				done := make(chan struct{})
+				var got []os.FileInfo
+				var lerr error
+				go func() { got, lerr = p.Client.ReadDir("/d"); close(done) }()
+				hung := false
+				select {
+				case <-done:
+				case <-time.After(10 * time.Second):
+					hung = true
+				}
+				p.Close()
+				n := c.Case("listerfault", kvi("n", size), kvi("call", int(j)), kvb("emptybatch", empty))
+				c.NT(n)
+				c.Stat("listerfault_cases")
+				switch {
+				case hung:
+					c.Oracle(n, false, "ReadDir did not return within 10 s")
+				case !empty && int(j) <= (size+2)/3 && lerr == nil:
+					c.Oracle(n, false, fmt.Sprintf("listing-cut-short: the lister failed on call %d of a %d-entry directory; ReadDir returned %d entries and a nil error", j, size, len(got)))
+				case empty && (lerr != nil || len(got) != size) && int(j) <= (size+2)/3:
+					c.Oracle(n, false, fmt.Sprintf("listing-cut-short: an empty batch on call %d of a %d-entry directory: ReadDir returned %d entries, err=%v", j, size, len(got), lerr))
+				default:
+					c.Oracle(n, true, "")
+				}
+			}
+		}
+	}
 	sftp.MaxFilelist = saved
 	// os-backed server on real directories
 	sizes := []int{0, 1, 2, 127, 128, 129, 255, 256, 257, 300}
